@@ -42,10 +42,11 @@ own dense assembly of the documented Hamiltonians):
 Tolerances: 1e-11 * scale, scale = the same product evaluated on absolute values (bounds every
 intermediate); quadrature 1e-8 * scale + error estimate; unit ratios 1e-9 relative.
 
-Stable signatures on the pinned tree:
- * "sho:xp-order-swapped"              DESIGN §7 D5 ("x p" = p.x, "p x" = x.p, "x dx", "dx x" likewise)
- * "sho:xp:origin-x0-ignored"          new: the same four symbols use y = x - x0 instead of x when x0 != 0
- * "mevac:a_a^dagger:not-product-of-factors"   new: BasisMultiElectronVac "a a^\\dagger" on (i, j) is |j><i|,
+Stable signatures:
+ * "sho:xp-order-swapped"              DESIGN §7 D5 ("x p" = p.x, "p x" = x.p, "x dx", "dx x" likewise); fired on the
+                                       pinned tree, silent since the `fix:` commit a6f54c6
+ * "sho:xp:origin-x0-ignored"          new, still fires: the same four symbols use y = x - x0 instead of x when x0 != 0
+ * "mevac:a_a^dagger:not-product-of-factors"   new, still fires (CHECK_MEVAC_AA_DAGGER_PRODUCT): BasisMultiElectronVac "a a^\\dagger" on (i, j) is |j><i|,
                                        the product a_i . a^dagger_j of its own one-symbol matrices is
                                        delta_ij |vac><vac|
 """
